@@ -565,7 +565,7 @@ def sc_reshape_2d_to_1d(n, m, c):
         raise _Done()
 
 
-def sc_matmul(n, k, m, c, ck):
+def sc_matmul(n, k, m, c, ck, e0=0, e1=0, r0=0, r1=0, j=0):
     _start()
     sx.assume(c <= n)
     sx.assume(ck <= k)
@@ -573,8 +573,18 @@ def sc_matmul(n, k, m, c, ck):
     y = G.stub_array("y", (k, m), (ck, m))
     out = _xp().matmul(x, y)
     _declared_ok(out, (n, m))
-    if MODE == "route":
-        raise _Done()
+    sx.assume(e0 < n)
+    sx.assume(r0 < n)
+    sx.assume(j < k)
+    e1, r1 = sx.conc(e1), sx.conc(r1)
+    sx.assume(e1 < m)
+    sx.assume(r1 < m)
+    # out[e0, e1] = sum_j x[e0, j] * y[j, e1]: every x[r0, j] / y[j, r1] enters once iff it lies in the row / column of the element
+    t, _ = _elem(out, (e0, e1))
+    mx = anp.term_mult(t, ("x", (r0, j)))
+    my = anp.term_mult(t, ("y", (j, r1)))
+    sx.require(mx == sx.ite(r0 == e0, 1, 0), "matmul-uses-the-wrong-row-of-the-first-operand", f"x[{r0},{j}] enters out[{e0},{e1}] {mx} times")
+    sx.require(my == (1 if r1 == e1 else 0), "matmul-uses-the-wrong-column-of-the-second-operand", f"y[{j},{r1}] enters out[{e0},{e1}] {my} times")
 
 
 def sc_tensordot(n, c, order):
@@ -659,10 +669,180 @@ def sc_index_stride_full(n, c, st, p):
     _expect(t, ("elem", "x", (p * st_,)))
 
 
+def sc_pad(n, c, pl, pr, e):
+    """pad(x, ((pl, pr),), mode='constant'): out[e] = x[e - pl] inside, a constant outside"""
+    _start()
+    import cubed
+
+    sx.assume(c <= n)
+    pl_, pr_ = sx.conc(pl), sx.conc(pr)
+    x = G.stub_array("x", (n,), (c,))
+    out = cubed.pad(x, ((pl_, pr_),), mode="constant")
+    _declared_ok(out, (n + pl_ + pr_,))
+    sx.assume(e < n + pl_ + pr_)
+    t, _ = _elem(out, (e,))
+    if sx.sand(e >= pl_, e < pl_ + n):
+        _expect(t, ("elem", "x", (e - pl_,)))
+    else:
+        sx.require(t[0] == "const", "padding-is-not-a-constant", str(t))
+
+
+def sc_diff(n, c, e):
+    """diff(x): out[e] = x[e+1] - x[e]"""
+    _start()
+    sx.assume(c <= n)
+    sx.assume(n >= 2)
+    sx.assume(e < n - 1)
+    x = G.stub_array("x", (n,), (c,))
+    out = _xp().diff(x)
+    _declared_ok(out, (n - 1,))
+    t, _ = _elem(out, (e,))
+    sx.require(t[0] == "fn" and t[1] == "subtract", "diff-is-not-a-subtraction", str(t))
+    _expect(t[2][0], ("elem", "x", (e + 1,)), "wrong-minuend")
+    _expect(t[2][1], ("elem", "x", (e,)), "wrong-subtrahend")
+
+
+def sc_tile(n, c, r, e):
+    _start()
+    sx.assume(c <= n)
+    r_ = sx.conc(r)
+    x = G.stub_array("x", (n,), (c,))
+    out = _xp().tile(x, (r_,))
+    _declared_ok(out, (n * r_,))
+    sx.assume(e < n * r_)
+    t, _ = _elem(out, (e,))
+    _expect(t, ("elem", "x", (e % n,)))
+
+
+def sc_where(n, c, c2, e):
+    """where(cond, x, y) with differently chunked operands"""
+    _start()
+    sx.assume(c <= n)
+    sx.assume(c2 <= n)
+    sx.assume(e < n)
+    k = G.stub_array("k", (n,), (c,), dtype="bool")
+    x = G.stub_array("x", (n,), (c2,))
+    y = G.stub_array("y", (n,), (c,))
+    out = _xp().where(k, x, y)
+    _declared_ok(out, (n,))
+    t, _ = _elem(out, (e,))
+    sx.require(t[0] == "fn" and t[1] == "where", "not-a-where", str(t))
+    _expect(t[2][0], ("elem", "k", (e,)), "wrong-condition")
+    _expect(t[2][1], ("elem", "x", (e,)), "wrong-first-branch")
+    _expect(t[2][2], ("elem", "y", (e,)), "wrong-second-branch")
+
+
+def sc_moveaxis(n, m, c, c2, e, e2):
+    _start()
+    sx.assume(c <= n)
+    sx.assume(c2 <= m)
+    sx.assume(e < n)
+    sx.assume(e2 < m)
+    x = G.stub_array("x", (n, m), (c, c2))
+    out = _xp().moveaxis(x, 0, 1)
+    _declared_ok(out, (m, n))
+    t, _ = _elem(out, (e2, e))
+    _expect(t, ("elem", "x", (e, e2)))
+
+
+def sc_outer(n, m, c, c2, e, e2):
+    _start()
+    sx.assume(c <= n)
+    sx.assume(c2 <= m)
+    sx.assume(e < n)
+    sx.assume(e2 < m)
+    from cubed.array_api.linalg import outer
+
+    x = G.stub_array("x", (n,), (c,))
+    y = G.stub_array("y", (m,), (c2,))
+    out = outer(x, y)
+    _declared_ok(out, (n, m))
+    t, _ = _elem(out, (e, e2))
+    sx.require(t[0] == "fn" and t[1] == "multiply", "outer-is-not-a-product", str(t))
+    sx.require(anp.term_mult(t, ("x", (e,))) == 1 and anp.term_mult(t, ("y", (e2,))) == 1, "wrong-factors", str(t))
+
+
+def sc_vecdot(n, c, j):
+    _start()
+    sx.assume(c <= n)
+    sx.assume(j < n)
+    x = G.stub_array("x", (n,), (c,))
+    y = G.stub_array("y", (n,), (c,))
+    out = _xp().vecdot(x, y)
+    _declared_ok(out, ())
+    t, _ = _elem(out, ())
+    sx.require(anp.term_mult(t, ("x", (j,))) == 1 and anp.term_mult(t, ("y", (j,))) == 1, "element-not-used-exactly-once", str(t))
+
+
+def sc_take_indices(n, c, i0, i1, e):
+    """take(x, [i0, i1]) with a concrete integer-array index"""
+    _start()
+    import numpy as np
+
+    sx.assume(c <= n)
+    n = sx.conc(n)  # ndindex validates the array index against a concrete shape
+    a, b = sx.conc(i0), sx.conc(i1)
+    sx.assume(a < n)
+    sx.assume(b < n)
+    x = G.stub_array("x", (n,), (c,))
+    out = x[np.asarray([a, b])]
+    _declared_ok(out, (2,))
+    ee = sx.conc(e)
+    t, _ = _elem(out, (ee,))
+    _expect(t, ("elem", "x", ([a, b][ee],)))
+
+
+def sc_linspace(n, c, e):
+    _start()
+    sx.assume(c <= n)
+    sx.assume(e < n)
+    out = _xp().linspace(0.0, 1.0, sx.conc(n), chunks=(sx.conc(c),), spec=G.default_spec())
+    _declared_ok(out, (n,))
+    if MODE == "route":
+        raise _Done()
+
+
+def sc_tril(n, c, e0, e1):
+    _start()
+    sx.assume(c <= n)
+    sx.assume(e0 < n)
+    sx.assume(e1 < n)
+    x = G.stub_array("x", (n, n), (c, c))
+    out = _xp().tril(x)
+    _declared_ok(out, (n, n))
+    if MODE == "route":
+        raise _Done()
+
+
+def sc_map_overlap(n, c, d, e):
+    """map_overlap(identity-like, depth d, trimmed): out[e] = x[e]"""
+    _start()
+    import cubed
+
+    sx.assume(c <= n)
+    sx.assume(e < n)
+    d_ = sx.conc(d)
+    sx.assume(d_ <= c)
+    # every chunk, including the trailing one, is at least `depth` long (dask refuses anything else; cubed does not check, and an
+    # interior block next to a shorter trailing chunk then gets less halo than asked for -- noted in DESIGN.md, outside C17's space)
+    sx.assume(sx.sor(n % c == 0, n % c >= d_))
+    x = G.stub_array("x", (n,), (c,))
+    out = cubed.map_overlap(_trim(d_), x, dtype=x.dtype, chunks=x.chunks, depth=d_, boundary=0.0)
+    _declared_ok(out, (n,))
+    t, _ = _elem(out, (e,))
+    _expect(t, ("elem", "x", (e,)))
+
+
+def _trim(d):
+    def f(a):
+        return a[d:a.shape[0] - d]
+    return f
+
+
 EXTRA_SCENARIOS = {
     "index[::step]": (sc_index_stride_full, lambda N: [("n", 1, 4 * N), ("c", 1, N + 3), ("st", 2, 3), ("p", 0, 4 * N)]),
     "linalg.qr": (sc_qr, lambda N: [("n", 1, N + 2), ("m", 1, 3), ("c", 1, N + 2)]),
-    "matmul": (sc_matmul, lambda N: [("n", 1, 4 if N <= 6 else 6), ("k", 1, 3), ("m", 1, 2), ("c", 1, 4 if N <= 6 else 6), ("ck", 1, 3)]),
+    "matmul": (sc_matmul, lambda N: [("n", 1, 4 if N <= 6 else 6), ("k", 1, 3), ("m", 1, 2), ("c", 1, 4 if N <= 6 else 6), ("ck", 1, 3), ("e0", 0, 5), ("e1", 0, 1), ("r0", 0, 5), ("r1", 0, 1), ("j", 0, 2)]),
     "argmax": (sc_argmax, lambda N: [("n", 1, N), ("c", 1, N), ("s", 2, 3), ("ax", 0, 1)]),
     **{f"{k}[1d]": (_sc_reduce_1d(k), lambda N: [("n", 1, 48), ("c", 1, 24), ("s", 2, 3)]) for k in ("var-float32", "var-float64", "mean-float32", "sum-int8")},
     **{f"{k}[axis0-2d]": (_sc_reduce_axis0(k), lambda N: [("n", 1, 4), ("m", 1, N), ("c", 1, 2), ("c2", 1, N), ("s", 2, 3)]) for k in _REDUCE_KINDS},
@@ -672,6 +852,18 @@ EXTRA_SCENARIOS = {
 
 SCENARIOS = {
     # name: (fn, vars with domains as functions of N)
+
+    "pad": (sc_pad, lambda N: [("n", 1, N), ("c", 1, N), ("pl", 0, 2), ("pr", 0, 2), ("e", 0, N + 4)]),
+    "diff": (sc_diff, lambda N: [("n", 2, N), ("c", 1, N), ("e", 0, N)]),
+    "tile": (sc_tile, lambda N: [("n", 1, N), ("c", 1, N), ("r", 1, 3), ("e", 0, 3 * N)]),
+    "where": (sc_where, lambda N: [("n", 1, N), ("c", 1, N), ("c2", 1, N), ("e", 0, N)]),
+    "moveaxis": (sc_moveaxis, lambda N: [("n", 1, 4), ("m", 1, N), ("c", 1, 4), ("c2", 1, N), ("e", 0, 4), ("e2", 0, N)]),
+    "linalg.outer": (sc_outer, lambda N: [("n", 1, 4), ("m", 1, N), ("c", 1, 4), ("c2", 1, N), ("e", 0, 4), ("e2", 0, N)]),
+    "vecdot": (sc_vecdot, lambda N: [("n", 1, N), ("c", 1, N), ("j", 0, N)]),
+    "index[int-array]": (sc_take_indices, lambda N: [("n", 1, N), ("c", 1, N), ("i0", 0, N), ("i1", 0, N), ("e", 0, 1)]),
+    "linspace": (sc_linspace, lambda N: [("n", 1, N), ("c", 1, N), ("e", 0, N)]),
+    "tril": (sc_tril, lambda N: [("n", 1, 4), ("c", 1, 4), ("e0", 0, 4), ("e1", 0, 4)]),
+    "map_overlap": (sc_map_overlap, lambda N: [("n", 1, N), ("c", 1, N), ("d", 1, 2), ("e", 0, N)]),
     "negative": (sc_negative, lambda N: [("n", 1, N), ("c", 1, N), ("e", 0, N)]),
     "subtract[same-chunks]": (sc_add_same_chunks, lambda N: [("n", 1, N), ("c", 1, N), ("e", 0, N)]),
     "subtract[broadcast-2d]": (sc_add_broadcast_2d, lambda N: [("n", 1, 4), ("m", 1, N), ("c", 1, 4), ("c2", 1, N), ("e", 0, 4), ("e2", 0, N)]),
@@ -731,12 +923,17 @@ def _functions():
             cu.to_chunksize, cu.offset_to_block_id, cu.block_id_to_offset]
 
 
+ROUTE_EXTRA = ("matmul", "add[astype-int8]", "index[::step]")
+
+
 def obligations(tier):
     N = 6 if tier == "quick" else 10
     wall = 600 if tier == "quick" else 3000
     fns = _functions()
     obls = []
-    for name, (fn, vs) in SCENARIOS.items():
+    route = dict(SCENARIOS)
+    route.update({k: EXTRA_SCENARIOS[k] for k in ROUTE_EXTRA})  # the extra scenarios that also state the values
+    for name, (fn, vs) in route.items():
         obls.append(
             Obl(
                 f"route[{name}]",
